@@ -4,7 +4,8 @@
   * `text_control_noop` : characters with no width below U+0100 (C0, DEL, C1) never reach the
     grid.
   * `text_too_wide_dropped` : a character wider than the whole screen is dropped (fix 71db06e).
-  * `print_filtered` : U+FFFD and C1 characters are reported, never drawn (with C18).
+  * U+FFFD and C1 characters are reported, never drawn: `Vt.C18` (`perform_events` in C18all; `perform_print_eq`
+    in MiscC05 for the drawn ones).
   * `text_narrow_fits` : a width-1 character with room on the line (`col + 1 ≤ cols`) landing on
     a cell that is neither wide nor a continuation: exactly that cell becomes the character with
     exactly the pen (contents, not wide, no continuation), the cursor advances by one, and nothing
